@@ -176,7 +176,20 @@ func c13Exec(c *c13Case) []Discrepancy {
 	return ds
 }
 
-func c13Run(f *Fixture, c *c13Case) []Discrepancy {
+func c13Run(f *Fixture, orig *c13Case) []Discrepancy {
+	// work on a copy whose key tokens carry this execution's nonce
+	nonce := f.Nonce()
+	cc := *orig
+	cc.Spec = *stampSpec(&orig.Spec, nonce)
+	cc.Forget = nil
+	for _, r := range orig.Forget {
+		nr := Req{Name: r.Name}
+		for _, a := range r.Args {
+			nr.Args = append(nr.Args, stampBin(a, nonce))
+		}
+		cc.Forget = append(cc.Forget, nr)
+	}
+	c := &cc
 	ds := pipeRunCompare("C13", f, &c.Cfg, &c.Spec, 0)
 	if len(ds) == 0 && len(c.Forget) > 0 {
 		ds = c13Forget(f, c)
@@ -190,7 +203,7 @@ func c13Run(f *Fixture, c *c13Case) []Discrepancy {
 		mig[m.Slot] = m
 	}
 	hops := map[string]int{}
-	for _, lr := range f.Cluster.Log() {
+	for _, lr := range f.LastLog {
 		ks := keysOf(lr.Name, lr.Args)
 		if len(ks) == 0 {
 			continue
@@ -217,7 +230,7 @@ func c13Run(f *Fixture, c *c13Case) []Discrepancy {
 	for _, k := range c.Spec.Present {
 		present[string(k)] = true
 	}
-	for _, lr := range f.Cluster.Log() {
+	for _, lr := range f.LastLog {
 		ks := keysOf(lr.Name, lr.Args)
 		if len(ks) == 0 {
 			continue
@@ -236,7 +249,7 @@ func c13Run(f *Fixture, c *c13Case) []Discrepancy {
 // c13Forget: a client writes its requests and disconnects at once. The node that answers MOVED/ASK has not
 // executed them, so the proxy must still re-send each to the node the redirection names (the reply is dropped).
 func c13Forget(f *Fixture, c *c13Case) []Discrepancy {
-	spec := PipeSpec{Moved: c.Spec.Moved, Migrating: c.Spec.Migrating, Present: c.Spec.Present}
+	spec := PipeSpec{Moved: c.Spec.Moved, Migrating: c.Spec.Migrating, Present: c.Spec.Present, DeadAddr: c.Spec.DeadAddr}
 	pi := indexPlans(&spec)
 	f.Cluster.ResetLog()
 	f.Cluster.SetHandler(redirectLayer(f, &spec, pi.handler(&gateSet{openAll: true})))
